@@ -1,6 +1,7 @@
 """C04 — Angles, matrices and vectors obey the rotation algebra (srctools/math.py, pure Python)."""
 from __future__ import annotations
 
+import json
 import math
 import random
 from decimal import Decimal
@@ -13,6 +14,7 @@ from translate import c04_formulas as tr
 from translate import c04_inverse as tri
 from translate import c04_rounded as trr
 from translate import c04_inplace as trp
+from translate import c04_state as trs
 
 MANIFEST = dict(
     technique='Rocq proof over R (ring/field/nsatz/nra) on formulas, a dispatch table and a Gauss-Jordan row-operation '
@@ -24,7 +26,12 @@ MANIFEST = dict(
               'interpreter instantiated with IEEE binary64 (Coq primitive floats) and of the rounding model against '
               'CPython floats; census of all in-place operator methods (class bodies + expanded exec() templates) with a '
               'decidable acceptance test; numeric oracle on the complete operand-type matrix, composed rotations, every in-place '
-              'operator / in-place rotation method and the conversion entry points; every stage under an exception / hang guard',
+              'operator / in-place rotation method and the conversion entry points; every stage under an exception / hang guard; '
+              'round 5: census of process state read from the whole of math.py (long-lived module-level / class-level objects, the '
+              'function bodies that read / update them, decorators, defaults, global declarations, reflective access, imports) with a '
+              'decidable acceptance test and a history-independence theorem, compared with the running module; history oracle: every '
+              'constructor call of a history of calls (objects handed out earlier modified by the caller, calls that raise) against '
+              'the same call alone in a NEW instance of the module, bit for bit',
     text='Theorems in Props/C04.v, about the objects read out of MatrixBase.from_angle/from_pitch/from_yaw/from_roll/'
          '_mat_mul/_vec_rot/transpose/_to_angle/inverse and the @ methods on every run: from_angle is orthonormal with '
          'determinant 1 and equals roll*pitch*yaw in the row-vector convention (axes fixed, handedness at +90 degrees); '
@@ -66,7 +73,19 @@ MANIFEST = dict(
          'copy / __deepcopy__ / freeze / thaw / _new_copy of the matrix classes are `return self` only for a frozen copy and '
          'otherwise field-for-field new objects of the right class (copies_ok, c04_matrix_copies_sound); '
          'c04_property composes all parts into one statement whose hypotheses are atan2_spec and the five '
-         'acceptance tests, and Props/C04Today.v proves the five tests for today\'s generated objects.  The trees, the table and the inverse program are '
+         'acceptance tests, and Props/C04Today.v proves the five tests for today\'s generated objects; round 5: for every census of '
+         'process state accepted by state_ok (no function reads a long-lived object that a function updates; nothing long-lived is '
+         'updated, no class / function attribute stored from a function, no caching decorator, no mutable default, no global '
+         'declaration, no reflective access, no foreign import) and every model of calls `run : args -> store -> result * store` of '
+         'which the census is a footprint, a call after ANY history of earlier calls returns what it returns in the initial state '
+         '(c04_history_independent, c04_state_ok_history_independent; the memo-table-keyed-by-the-text shape of seeded fault c04_8 is '
+         'rejected and a run with that footprint does answer with the first call\'s fallback: c04_memo_by_text_refuted); '
+         'c04_property_histories = c04_property + the history statement, proved for today\'s census in Props/C04Today.v; the SHAPE of '
+         'every pivot search of inverse() (comparison, start of the largest value so far and of the pivot row, missing-pivot test; read '
+         'by a tolerant reader also when the program translator fails closed) accepted by pv_shape_ok selects a non-zero entry of largest '
+         'absolute value whenever some candidate entry is not zero (c04_pivot_search_finds_nonzero_pivot, over the reals; a model of the '
+         'search alone), and the signed-seed shape of seeded fault c04_6 reports "no inverse" for the column (-1, 0, 0) '
+         '(c04_pivot_signed_seed_refuted).  The trees, the table and the inverse program are '
          'compared bit-for-bit with the running implementation; all identities are searched numerically within '
          '1e-9*max(1,|v|).',
     note='Exact real arithmetic except for the rounding theorems of _vec_rot/_mat_mul (rounded-real model of binary64: round '
@@ -82,7 +101,11 @@ MANIFEST = dict(
          'from another object, pickle, forward/left/up, from_angstr, to_matrix, every vector / angle conversion) are searched '
          'only; Vec.rotate is modelled for round_vals=False only.  The in-place census is a path classification (what each path returns, how many stores '
          'into the receiver precede it), not a value semantics: the values of += ... %= are compared with the pure operators by '
-         'the oracle only; @= has the full dispatch model.  The Cython twin _math.pyx cannot be built and is not verified.',
+         'the oracle only; @= has the full dispatch model.  Histories (round 5): that the state census is a FOOTPRINT of the real '
+         'calls (objects outside its write set keep their value, results depend on the store through its read set only) is a visible '
+         'hypothesis of the history theorems, not proved - the census is an ast analysis (trusted, compared with the objects, function '
+         'attributes, defaults and closure cells of the running module); instance attributes (__slots__) and objects the CALLER keeps '
+         'are outside it and covered by the history oracle (objects handed out must keep their value).  The Cython twin _math.pyx cannot be built and is not verified.',
 )
 
 CONCRETE = tr.CONCRETE
@@ -94,6 +117,8 @@ GJT_IMPORTS = ['Coq.Lists.List', 'Coq.Bool.Bool', 'Coq.QArith.QArith', 'SV.Rot.R
 COPIES_IMPORTS = ['Coq.Lists.List', 'Coq.Bool.Bool', 'SV.Rot.RotCopies', 'SV.Gen.RotCopies_gen']
 METHOD_IMPORTS = ['Coq.Lists.List', 'Coq.Bool.Bool', 'SV.Rot.RotMethods', 'SV.Gen.RotMethods_gen']
 INPLACE_IMPORTS = ['Coq.Lists.List', 'Coq.Bool.Bool', 'SV.Rot.RotInplace', 'SV.Gen.RotInplace_gen']
+PIVOT_IMPORTS = ['Coq.Lists.List', 'Coq.Bool.Bool', 'SV.Rot.RotPivot', 'SV.Gen.RotPivot_gen']
+STATE_IMPORTS = ['Coq.Lists.List', 'Coq.Bool.Bool', 'SV.Rot.RotState', 'SV.Gen.RotState_gen']
 ROUND_IMPORTS = ['Coq.Lists.List', 'Coq.Bool.Bool', 'Coq.QArith.QArith', 'SV.Rot.RotRound', 'SV.Gen.RotRounded_gen']
 TOL = 1e-9
 GIMBAL = 0.001
@@ -112,8 +137,8 @@ def bits(x: float) -> bytes:
 # STAGE_SECONDS_AFTER_HANG each, so that a hanging implementation costs about 10 minutes in total and not 11 x STAGE_SECONDS.
 _CURRENT: list[Any] = [None]
 STAGES = ('correspondence-formulas', 'correspondence-dispatch', 'correspondence-angle-operand', 'correspondence-inverse',
-          'correspondence-inplace-census', 'correspondence-rounding', 'correspondence-euler-float', 'search-operands',
-          'search-identities', 'search-composed', 'search-inplace', 'search-conversions')
+          'correspondence-inplace-census', 'correspondence-state-census', 'correspondence-rounding', 'correspondence-euler-float', 'search-operands',
+          'search-identities', 'search-composed', 'search-inplace', 'search-conversions', 'search-histories')
 STAGE_SECONDS = 300
 STAGE_SECONDS_AFTER_HANG = 30
 
@@ -1221,6 +1246,439 @@ def search_conversions(ck: Ck, found: dict) -> None:
                 found[key] = (desc, {'kind': 'conversion', 'vals': vals})
 
 
+# =============================================================================================== histories (round 5)
+# "Every matrix built from an Euler angle ... agrees with the Source convention": whatever was asked for before must not matter.
+# A HISTORY is a sequence of public calls that build a rotation / angle / vector from text or numbers (plus modifications of the
+# objects handed out earlier, and calls that raise) run in ONE instance of the module; every call must return, bit for bit, what
+# the same call returns as the only call of a NEW instance of the module.  A new instance = the body of math.py executed again in
+# an empty namespace: every module-level, class-level and decorator-held object (caches, memo tables, shared defaults, counters)
+# starts afresh, whatever its name and wherever in the file it lives.
+_MATH_CODE: list[Any] = [None]
+_FRESH_N = [0]
+
+
+def fresh_math() -> Any:
+    import sys
+    import types
+    import srctools.math as sm
+    if _MATH_CODE[0] is None:
+        with open(sm.__file__, encoding='utf8') as f:
+            _MATH_CODE[0] = compile(f.read(), sm.__file__, 'exec')
+    _FRESH_N[0] += 1
+    name = f'srctools._c04_fresh_math_{_FRESH_N[0]}'
+    m = types.ModuleType(name)
+    m.__file__ = sm.__file__
+    m.__package__ = 'srctools'
+    sys.modules[name] = m
+    try:
+        exec(_MATH_CODE[0], m.__dict__)
+    finally:
+        sys.modules.pop(name, None)
+    return m
+
+
+class in_fresh_math:
+    """Within the block `srctools.math` IS a new instance of the module (for code that imports it when it is called)."""
+    def __enter__(self) -> Any:
+        import sys
+        import srctools
+        import srctools.math as sm
+        self.old = sm
+        self.new = fresh_math()
+        sys.modules['srctools.math'] = self.new
+        srctools.math = self.new
+        return self.new
+
+    def __exit__(self, *exc: Any) -> None:
+        import sys
+        import srctools
+        sys.modules['srctools.math'] = self.old
+        srctools.math = self.old
+
+
+def history_dependent(found: dict) -> list[str]:
+    """The keys of the violations (other than those of the history oracle itself) whose input PASSES when it is the only thing a new
+    instance of the module is asked: the failure seen by the oracle - which had made thousands of calls before - depends on the
+    history of the process.  Their descriptions say so; the replay of such an input alone does not reproduce the failure."""
+    import contextlib
+    import io
+    out = []
+    for key, (what, rp) in sorted(found.items()):
+        if key.startswith(('history', 'hang:', 'exception:')) or not isinstance(rp, dict) or rp.get('kind') in (None, 'stage', 'history'):
+            continue
+        try:
+            with in_fresh_math(), contextlib.redirect_stdout(io.StringIO()):
+                rc = _replay({'replay': json.loads(json.dumps(rp))})
+        except Exception:      # noqa: BLE001 - it fails alone too
+            continue
+        if rc == 0:
+            out.append(key)
+            found[key] = (what + '  [HISTORY-DEPENDENT: this input passes as the first thing a new instance of srctools.math is asked; '
+                          'the failure needs the calls the oracle made before it - replaying the input alone does not reproduce it]', rp)
+    return out
+
+
+def _hist_entries() -> dict[str, Any]:
+    E: dict[str, Any] = {}
+
+    def vec_of(m: Any, v: Any) -> Any:
+        return None if v is None else m.Vec(*v)
+    for mc in ('Matrix', 'FrozenMatrix'):
+        E[f'{mc}.from_angstr'] = lambda m, a, mc=mc: getattr(m, mc).from_angstr(*a)                    # text[, p, y, r]
+        E[f'{mc}.from_angle'] = lambda m, a, mc=mc: getattr(m, mc).from_angle(*a)                      # p, y, r
+        E[f'{mc}.from_angle(Angle)'] = lambda m, a, mc=mc: getattr(m, mc).from_angle(m.Angle(*a))
+        E[f'{mc}.from_angle(FrozenAngle)'] = lambda m, a, mc=mc: getattr(m, mc).from_angle(m.FrozenAngle(*a))
+        for ax in ('pitch', 'yaw', 'roll'):
+            E[f'{mc}.from_{ax}'] = lambda m, a, mc=mc, ax=ax: getattr(getattr(m, mc), 'from_' + ax)(*a)
+        E[f'{mc}.axis_angle'] = lambda m, a, mc=mc: getattr(m, mc).axis_angle(tuple(a[:3]), a[3])
+        E[f'{mc}.from_basis'] = lambda m, a, mc=mc: getattr(m, mc).from_basis(x=vec_of(m, a[0]), y=vec_of(m, a[1]), z=vec_of(m, a[2]))
+        E[f'{mc}()'] = lambda m, a, mc=mc: getattr(m, mc)()
+        E[f'{mc}(matrix)'] = lambda m, a, mc=mc: getattr(m, mc)(m.Matrix.from_angle(*a))
+    for ac in ('Angle', 'FrozenAngle'):
+        E[f'{ac}.from_str'] = lambda m, a, ac=ac: getattr(m, ac).from_str(*a)
+        E[f'{ac}()'] = lambda m, a, ac=ac: getattr(m, ac)(*a)                                          # 0..3 numbers
+        E[f'{ac}.from_basis'] = lambda m, a, ac=ac: getattr(m, ac).from_basis(x=vec_of(m, a[0]), y=vec_of(m, a[1]), z=vec_of(m, a[2]))
+    for vc in ('Vec', 'FrozenVec'):
+        E[f'{vc}.from_str'] = lambda m, a, vc=vc: getattr(m, vc).from_str(*a)
+        E[f'{vc}()'] = lambda m, a, vc=vc: getattr(m, vc)(*a)
+        E[f'{vc} @ from_angstr'] = lambda m, a, vc=vc: getattr(m, vc)(*a[0]) @ m.Matrix.from_angstr(*a[1])
+        E[f'{vc} @ Angle.from_str'] = lambda m, a, vc=vc: getattr(m, vc)(*a[0]) @ m.Angle.from_str(*a[1])
+    E['parse_vec_str'] = lambda m, a: m.parse_vec_str(*a)
+    E['to_matrix(None)'] = lambda m, a: m.to_matrix(None)
+    E['to_matrix(Angle)'] = lambda m, a: m.to_matrix(m.Angle(*a))
+    E['to_matrix(tuple)'] = lambda m, a: m.to_matrix(tuple(a))
+    E['Vec.rotate_by_str'] = lambda m, a: m.Vec(*a[0]).rotate_by_str(*a[1])
+    E['Matrix.to_angle'] = lambda m, a: m.Matrix.from_angle(*a).to_angle()
+    # the operators themselves (three numbers: an Euler angle; the other operand is fixed): a scratch object or a memo inside
+    # _rotate_angle / _mat_mul / from_angle would show up here
+    E['Vec @ Angle'] = lambda m, a: m.Vec(128.0, -64.0, 16.0) @ m.Angle(*a)
+    E['FrozenVec @ FrozenMatrix'] = lambda m, a: m.FrozenVec(128.0, -64.0, 16.0) @ m.FrozenMatrix.from_angle(*a)
+    E['Angle @ Angle'] = lambda m, a: m.Angle(*a) @ m.Angle(10.0, 20.0, 30.0)
+    E['FrozenAngle @ Angle'] = lambda m, a: m.FrozenAngle(*a) @ m.Angle(10.0, 20.0, 30.0)
+    E['Angle @ Matrix'] = lambda m, a: m.Angle(10.0, 20.0, 30.0) @ m.Matrix.from_angle(*a)
+    E['Matrix @ Matrix'] = lambda m, a: m.Matrix.from_angle(*a) @ m.Matrix.from_angle(10.0, 20.0, 30.0)
+    E['FrozenMatrix @ Angle'] = lambda m, a: m.FrozenMatrix.from_angle(*a) @ m.Angle(10.0, 20.0, 30.0)
+    E['Matrix.inverse'] = lambda m, a: m.Matrix.from_angle(*a).inverse()
+    E['Matrix.transpose'] = lambda m, a: m.Matrix.from_angle(*a).transpose()
+    E['Vec.rotate'] = lambda m, a: m.Vec(128.0, -64.0, 16.0).rotate(*a)
+    return E
+
+
+HIST_ENTRIES = _hist_entries()
+HIST_TEXT_ENTRIES = ['Matrix.from_angstr', 'FrozenMatrix.from_angstr', 'Angle.from_str', 'FrozenAngle.from_str', 'Vec.from_str',
+                     'FrozenVec.from_str', 'parse_vec_str']
+HIST_OPERATORS = ['Vec @ Angle', 'FrozenVec @ FrozenMatrix', 'Angle @ Angle', 'FrozenAngle @ Angle', 'Angle @ Matrix', 'Matrix @ Matrix',
+                  'FrozenMatrix @ Angle', 'Matrix.inverse', 'Matrix.transpose', 'Vec.rotate']
+HIST_TEXT_ROT = ['Vec @ from_angstr', 'FrozenVec @ from_angstr', 'Vec @ Angle.from_str', 'FrozenVec @ Angle.from_str', 'Vec.rotate_by_str']
+# texts that do not parse (the fallback numbers decide) and texts that do (the fallback must not matter)
+HIST_BAD_TEXTS = ['', '0 90', 'up', '12 34 x', ' ', '1 2 3 4', '0,90,0', '(', 'nan nan', '<>']
+HIST_GOOD_TEXTS = ['0 90 0', '(45 270 12.5)', '<12 34 56>', '[12 34 -56]', '{1 2 3}', '90 0 0', '0 0 0', ' -0 180 -90 ', '1e1 2.5e-1 -3']
+HIST_FALLBACKS = [(0.0, 0.0, 0.0), (0.0, 90.0, 0.0), (270.0, 15.0, 80.0), (-90.0, 0.0, 0.0), (30.0, 0.0, 45.0), (1.0, 2.0, 3.0)]
+
+
+def hsnap(o: Any) -> Any:
+    """Class name and bit patterns of what a call returned (in whichever instance of the module), JSON-friendly."""
+    def fl(x: Any) -> str:
+        return x.hex() if isinstance(x, float) else repr(x)
+    if isinstance(o, BaseException):
+        return ['raises', type(o).__name__]
+    n = type(o).__name__
+    try:
+        if n in ('Vec', 'FrozenVec'):
+            return [n] + [fl(x) for x in (o._x, o._y, o._z)]
+        if n in ('Angle', 'FrozenAngle'):
+            return [n] + [fl(x) for x in (o._pitch, o._yaw, o._roll)]
+        if n in ('Matrix', 'FrozenMatrix'):
+            return [n] + [fl(getattr(o, s)) for s in ('_aa', '_ab', '_ac', '_ba', '_bb', '_bc', '_ca', '_cb', '_cc')]
+    except AttributeError as e:
+        return ['broken', n, str(e)]
+    if isinstance(o, tuple):
+        return ['tuple'] + [fl(x) for x in o]
+    return ['other', repr(o)[:80]]
+
+
+def hshow(s: Any) -> str:
+    if s and s[0] in ('raises', 'other', 'broken'):
+        return ' '.join(map(str, s))
+    def num(x: str) -> str:
+        try:
+            return format(float.fromhex(x), '.6g')
+        except ValueError:
+            return x
+    return f'{s[0]}(' + ', '.join(num(x) for x in s[1:]) + ')'
+
+
+def _hist_modify(m: Any, o: Any) -> None:
+    """What a caller may do with a mutable object it was handed: the object is the caller's."""
+    n = type(o).__name__
+    if n == 'Matrix':
+        o @= m.Matrix.from_yaw(33.0)
+    elif n == 'Vec':
+        o += (1.0, 2.0, 3.0)
+    elif n == 'Angle':
+        o.yaw += 33.0
+        o.pitch = 12.0
+
+
+def run_history(steps: list, changed: list | None = None) -> list:
+    """Run the steps in ONE new instance of the module; per step the snapshot of what the call returned (None for a modification).
+    `changed` collects (i, j, before, after): the object handed out by step i no longer had the value it was returned with (or
+    was given by the caller) after step j ran - a later call reached an object that belongs to the caller."""
+    import warnings
+    m = fresh_math()
+    objs: list[Any] = []
+    base: list[Any] = []       # what each handed-out object must still look like
+    out: list[Any] = []
+    with warnings.catch_warnings():
+        warnings.simplefilter('ignore')
+        for j, st in enumerate(steps):
+            if st[0] in ('call', 'call!'):
+                try:
+                    o = HIST_ENTRIES[st[1]](m, st[2])
+                except Exception as e:      # noqa: BLE001 - an exception is a result like any other: the same alone and in a history
+                    o = e
+                out.append(hsnap(o))
+                base.append(out[-1])
+                # 'call!': the caller drops the result at once (its memory - and its id() - is free for the next object)
+                objs.append(o if st[0] == 'call' else None)
+                del o
+            else:
+                k = st[1]
+                if 0 <= k < len(objs) and objs[k] is not None:
+                    try:
+                        _hist_modify(m, objs[k])
+                    except Exception:      # noqa: BLE001
+                        pass
+                    # the caller's own modification: objects that ARE this object follow it (the same object handed out twice is
+                    # reported through the values: the second call's result differs from the call alone once the first is modified)
+                    for i in range(len(objs)):
+                        if objs[i] is objs[k]:
+                            base[i] = hsnap(objs[i])
+                objs.append(None)
+                out.append(None)
+                base.append(None)
+            if changed is not None and st[0] in ('call', 'call!'):
+                for i in range(j):
+                    if objs[i] is not None and not isinstance(objs[i], BaseException) and hsnap(objs[i]) != base[i]:
+                        changed.append((i, j, base[i], hsnap(objs[i])))
+                        base[i] = hsnap(objs[i])
+    return out
+
+
+_ALONE: dict[str, Any] = {}
+
+
+def call_alone(st: list) -> Any:
+    st = ['call', st[1], st[2]]
+    key = repr(st)
+    if key not in _ALONE:
+        _ALONE[key] = run_history([st])[0]
+    return _ALONE[key]
+
+
+def history_problem(steps: list) -> tuple[int, str, str] | None:
+    """(index, key, description) of the first call of the history that does not return what it returns alone, or that changes an
+    object handed out by an earlier call."""
+    _CURRENT[0] = {'kind': 'history', 'steps': steps}
+    changed: list = []
+    res = run_history(steps, changed)
+    for i, (st, r) in enumerate(zip(steps, res)):
+        if st[0] not in ('call', 'call!'):
+            continue
+        ch = next((c for c in changed if c[1] == i), None)
+        if ch is not None:
+            return (i, f'history-result-changed:{steps[ch[0]][1]}',
+                    f'the object returned by step {ch[0]}, {steps[ch[0]][1]}{tuple(steps[ch[0]][2])!r} = {hshow(ch[2])}, became {hshow(ch[3])} '
+                    f'when step {i}, {st[1]}{tuple(st[2])!r}, ran: the caller\'s object is shared with the module')
+        alone = call_alone(st)
+        if r != alone:
+            before = sum(1 for s in steps[:i] if s[0] in ('call', 'call!'))
+            return (i, f'history:{st[1]}',
+                    f'{st[1]}{tuple(st[2])!r} returned {hshow(r)} after {before} earlier call(s) in the same process, but '
+                    f'{hshow(alone)} as the first call of a new process')
+    return None
+
+
+def _hist_drop(steps: list, j: int) -> list:
+    """The history without step j (modifications of its result go too; references to later steps move up)."""
+    out = []
+    for i, st in enumerate(steps):
+        if i == j or (st[0] == 'modify' and st[1] == j):
+            continue
+        out.append(['modify', st[1] - 1] if st[0] == 'modify' and st[1] > j else st)
+    return out
+
+
+def shrink_history(steps: list, key: str) -> list:
+    pr = history_problem(steps)
+    if pr is not None:
+        steps = steps[:pr[0] + 1]
+    changed = True
+    while changed and len(steps) > 1:
+        changed = False
+        for j in range(len(steps) - 1):
+            cand = _hist_drop(steps, j)
+            pr = history_problem(cand)
+            if pr is not None and pr[1] == key:
+                steps = cand[:pr[0] + 1]
+                changed = True
+                break
+    return steps
+
+
+def _hist_text_args(rng: random.Random, texts: list[str]) -> list:
+    t = rng.choice(texts)
+    r = rng.random()
+    if r < 0.15:
+        return [t]
+    fb = list(rng.choice(HIST_FALLBACKS)) if r < 0.8 else [round(rng.uniform(-360, 360), 3) for _ in range(3)]
+    return [t] + fb[:rng.choice([3, 3, 3, 2, 1])]
+
+
+def gen_history(rng: random.Random) -> list:
+    texts = rng.sample(HIST_BAD_TEXTS, rng.choice([1, 1, 2])) + rng.sample(HIST_GOOD_TEXTS, rng.choice([0, 1, 1]))
+    entries = rng.sample(HIST_TEXT_ENTRIES, rng.choice([1, 2, 3]))
+    steps: list = []
+    for _ in range(rng.randrange(2, 10)):
+        r = rng.random()
+        calls = [i for i, s in enumerate(steps) if s[0] == 'call']
+        if r < 0.55:
+            steps.append(['call', rng.choice(entries), _hist_text_args(rng, texts)])
+        elif r < 0.65:
+            steps.append(['call', rng.choice(HIST_TEXT_ROT), [list(gen_vec(rng)), _hist_text_args(rng, texts)]])
+        elif r < 0.75 and calls:
+            steps.append(['modify', rng.choice(calls)])
+        else:
+            ang = list(gen_angle(rng)[0]) if rng.random() < 0.5 else list(rng.choice(HIST_FALLBACKS))
+            e = rng.choice(['from_angle', 'from_angle(Angle)', 'from_angle(FrozenAngle)', 'from_pitch', 'from_yaw', 'from_roll',
+                            'axis_angle', 'from_basis', '()', '(matrix)', 'Angle()', 'Vec()', 'to_matrix', 'Angle.from_basis',
+                            'to_angle', 'error', 'operator', 'operator'])
+            mc = rng.choice(['Matrix', 'FrozenMatrix'])
+            if e in ('from_angle', 'from_angle(Angle)', 'from_angle(FrozenAngle)', '(matrix)'):
+                steps.append(['call', f'{mc}.{e}' if e != '(matrix)' else f'{mc}(matrix)', ang])
+            elif e in ('from_pitch', 'from_yaw', 'from_roll'):
+                steps.append(['call', f'{mc}.{e}', [ang[0]]])
+            elif e == 'axis_angle':
+                steps.append(['call', f'{mc}.axis_angle', list(gen_vec(rng)) + [ang[1]]])
+            elif e in ('from_basis', 'Angle.from_basis'):
+                rows = ref_from_angle(*ang)
+                a3: list = [list(rows[0]), list(rows[1]), list(rows[2])]
+                a3[rng.randrange(3)] = None
+                if rng.random() < 0.3:
+                    a3[rng.randrange(3)] = None
+                steps.append(['call', f'{mc}.from_basis' if e == 'from_basis' else rng.choice(['Angle', 'FrozenAngle']) + '.from_basis', a3])
+            elif e == '()':
+                steps.append(['call', f'{mc}()', []])
+            elif e == 'Angle()':
+                steps.append(['call', rng.choice(['Angle()', 'FrozenAngle()']), ang[:rng.choice([0, 1, 2, 3, 3])]])
+            elif e == 'Vec()':
+                steps.append(['call', rng.choice(['Vec()', 'FrozenVec()']), list(gen_vec(rng))[:rng.choice([0, 1, 2, 3, 3])]])
+            elif e == 'to_matrix':
+                k = rng.choice(['to_matrix(None)', 'to_matrix(Angle)', 'to_matrix(tuple)'])
+                steps.append(['call', k, [] if k == 'to_matrix(None)' else ang])
+            elif e == 'to_angle':
+                steps.append(['call', 'Matrix.to_angle', ang])
+            elif e == 'operator':
+                steps.append(['call', rng.choice(HIST_OPERATORS), ang])
+            else:   # a call that raises half-way, after which the caller carries on
+                steps.append(rng.choice([['call', f'{mc}.from_angle', ['x', 0.0, 0.0]], ['call', f'{mc}.from_basis', [[0.0, 0.0, 0.0], None, None]],
+                                         ['call', f'{mc}.from_angstr', ['', 'x', 0.0, 0.0]], ['call', 'Angle()', ['a', 1.0, 2.0]],
+                                         ['call', f'{mc}.axis_angle', [0.0, 0.0, 0.0, 90.0]], ['call', 'Vec.from_str', ['', 'q']]]))
+    return steps
+
+
+def history_sweeps() -> list[list]:
+    """Deterministic part: per text entry point, every text with every fallback, twice over (so every text has been seen before
+    with another fallback), Matrix results modified in between."""
+    out = []
+    texts = HIST_BAD_TEXTS[:5] + HIST_GOOD_TEXTS[:2]
+    for e in HIST_TEXT_ENTRIES + HIST_TEXT_ROT:
+        steps: list = []
+        for _rnd in range(2):
+            for fb in HIST_FALLBACKS[:3]:
+                for t in texts:
+                    args = [t] + list(fb)
+                    steps.append(['call', e, args if e in HIST_TEXT_ENTRIES else [[128.0, -64.0, 16.0], args]])
+                    if len(steps) % 5 == 0:
+                        steps.append(['modify', len(steps) - 1])
+        out.append(steps)
+    return out
+
+
+HIST_CANONICAL_ARGS = [30.0, 60.0, 45.0]
+
+
+def history_handed_out() -> list[list]:
+    """Deterministic part: every entry point called, its result modified by the caller, called again with the same arguments, the
+    second result modified, called a third time, then once with other arguments (a result that IS a long-lived object of the
+    module - a cached matrix, a shared identity, a scratch object - shows up as a changed answer or a changed earlier result)."""
+    out = []
+    v = [128.0, -64.0, 16.0]
+    for e in HIST_ENTRIES:
+        if e.endswith('from_angstr') and '@' not in e or e.endswith('.from_str') and '@' not in e or e == 'parse_vec_str':
+            forms = [['10 20 30'], ['', 10.0, 20.0, 30.0]]
+            other = ['40 50 60']
+        elif '@' in e or e == 'Vec.rotate_by_str':
+            forms = [[v, ['10 20 30']]]
+            other = [v, ['40 50 60']]
+        elif e.endswith(('from_pitch', 'from_yaw', 'from_roll')):
+            forms, other = [[33.0]], [12.0]
+        elif e.endswith('axis_angle'):
+            forms, other = [[0.0, 0.0, 1.0, 33.0]], [1.0, 0.0, 0.0, 12.0]
+        elif e.endswith('from_basis'):
+            forms, other = [[[1.0, 0.0, 0.0], [0.0, 1.0, 0.0], None], [None, None, None]], [[0.0, 1.0, 0.0], [-1.0, 0.0, 0.0], None]
+        elif e.endswith('()') and e.split('(')[0] in ('Matrix', 'FrozenMatrix') or e == 'to_matrix(None)':
+            forms, other = [[]], []
+        else:
+            forms, other = [list(HIST_CANONICAL_ARGS), []] if e.endswith('()') else [list(HIST_CANONICAL_ARGS)], [5.0, 6.0, 7.0]
+        for a in forms:
+            out.append([['call', e, a], ['modify', 0], ['call', e, a], ['modify', 2], ['call', e, a], ['call', e, other], ['call', e, a]])
+    return out
+
+
+def history_churn() -> list[list]:
+    """Deterministic part: 40 calls of operator / numeric entry points with different angles; the results of about half of them
+    (and all temporaries) are dropped at once, so that later objects reuse the memory - and the id() - of dead ones in ever
+    different patterns (a memo keyed by identity, a weak table that is not cleared, a free list of scratch objects)."""
+    out = []
+    pool = HIST_OPERATORS + ['Matrix.from_angle(Angle)', 'FrozenMatrix.from_angle(FrozenAngle)', 'Matrix.to_angle', 'to_matrix(Angle)',
+                             'Angle()', 'Matrix(matrix)']
+    for k in range(16):
+        rng = random.Random(1000 + k)
+        mine = [pool[k]] if k < len(pool) else pool
+        out.append([[rng.choice(['call', 'call!', 'call!']), rng.choice(mine + HIST_OPERATORS[:5]),
+                     [float(rng.randrange(-24, 25) * 15), float(rng.randrange(-24, 25) * 15), round(rng.uniform(-360, 360), 2)]]
+                    for _ in range(40)])
+    return out
+
+
+def search_histories(ck: Ck, found: dict) -> None:
+    def one(steps: list, group: str) -> None:
+        ck.count(group)
+        calls = [s for s in steps if s[0] in ('call', 'call!')]
+        for s in calls:
+            ck.hist('history_entry_points', s[1])
+        ck.hist('history_length', min(len(calls), 10) if len(calls) < 10 else '10+')
+        if len(calls) >= 2:
+            ck.seen(('history', repr(steps)))
+        pr = history_problem(steps)
+        if pr is not None and pr[1] not in found:
+            small = shrink_history(steps, pr[1])
+            pr2 = history_problem(small) or pr
+            found[pr2[1]] = (pr2[2] + f'; history of {len(small)} step(s): ' + '; '.join(
+                f'{s[1]}{tuple(s[2])!r}' if s[0] != 'modify' else f'modify the result of step {s[1]}' for s in small)[:600],
+                {'kind': 'history', 'steps': small})
+    for steps in history_sweeps():
+        one(steps, 'history_sweeps')
+    for steps in history_handed_out():
+        one(steps, 'history_handed_out')
+    for steps in history_churn():
+        one(steps, 'history_churn')
+    for _ in range(ck.budget(120, 2000)):
+        one(gen_history(ck.rng), 'history_cases')
+    ck.sample({'history': gen_history(random.Random(ck.seed))})
+
+
 # =============================================================================================== axioms
 def theorems_with_axioms(ck: Ck, props_file: str = 'Props/C04.v') -> None:
     """Same job as Ck.theorems (one `theorem:` obligation per theorem, axioms recorded), with a complete parser:
@@ -1287,6 +1745,81 @@ def theorems_with_axioms(ck: Ck, props_file: str = 'Props/C04.v') -> None:
     ck.obligation('assumptions:only-classical-reals', used <= allowed,
                   'axioms used by Props/C04.v: ' + (', '.join(sorted(used)) or 'none') +
                   ('' if used <= allowed else ' -- UNEXPECTED: ' + ', '.join(sorted(used - allowed))))
+
+
+def _stateful(v: Any) -> str | None:
+    """The object can carry something from one call to the next (by its class, at run time)."""
+    import collections
+    if isinstance(v, (dict, list, set, bytearray, collections.deque)):
+        return type(v).__name__
+    if any(hasattr(v, a) for a in ('cache_info', 'cache_clear', 'cache_parameters')):
+        return f'{type(v).__name__} (a cache wrapper)'
+    return None
+
+
+def corr_state_census(ck: Ck) -> None:
+    """The census of long-lived objects read from the source against the RUNNING module: every module-level / class-level object
+    of a mutable class (dict, list, set, bytearray, deque, cache wrappers), every function attribute, every mutable default
+    value and every mutable object held in a closure cell that exists at run time must be known to the census."""
+    import inspect
+    import srctools.math as sm
+    A = trs.analyse()
+    bad: list[str] = []
+    n_obj = n_fn = 0
+    flagged = bool(A['decorators'] or A['class_writes'] or A['reflective'])
+    funcs: list[tuple[str, Any]] = []
+
+    def functions_of(name: str, v: Any) -> None:
+        for f in ([v.fget, v.fset, v.fdel] if isinstance(v, property) else [getattr(v, '__func__', v)]):
+            if inspect.isfunction(f):
+                funcs.append((name, f))
+    classes: dict[int, type] = {}
+    for name, v in vars(sm).items():
+        if name.startswith('__') and name.endswith('__'):
+            continue
+        if isinstance(v, type) and v.__module__ == sm.__name__:
+            classes[id(v)] = v
+            continue
+        n_obj += 1
+        kind = _stateful(v)
+        if kind and name not in A['long_lived_module'] and not flagged:
+            bad.append(f'module-level `{name}` is a {kind} at run time, unknown to the census')
+        if getattr(v, '__module__', None) == sm.__name__:
+            functions_of(name, v)
+    for cls in classes.values():
+        for k, a in vars(cls).items():
+            if k.startswith('__') and k.endswith('__') and not inspect.isfunction(a):
+                continue
+            if issubclass(cls, tuple) and hasattr(cls, '_fields') and k in ('_field_defaults', '_fields'):
+                continue      # written by the NamedTuple machinery when the class statement runs
+            n_obj += 1
+            kind = _stateful(a)
+            if kind and not any(q.endswith('.' + k) for q in A['long_lived_class']) and not flagged:
+                bad.append(f'class-level `{cls.__name__}.{k}` is a {kind} at run time, unknown to the census')
+            functions_of(f'{cls.__name__}.{k}', a)
+    for name, f in funcs:
+        n_fn += 1
+        extra = [k for k in vars(f) if not (k.startswith('__') and k.endswith('__'))]
+        if extra and not flagged:
+            bad.append(f'function `{name}` carries the attributes {extra}')
+        dfl = list(f.__defaults__ or ()) + list((f.__kwdefaults__ or {}).values())
+        if any(_stateful(d) for d in dfl) and not A['defaults']:
+            bad.append(f'function `{name}` has a mutable default value, unknown to the census')
+        for cell in (f.__closure__ or ()):
+            try:
+                cv = cell.cell_contents
+            except ValueError:
+                continue
+            if _stateful(cv) and not flagged:
+                bad.append(f'function `{name}` holds a {_stateful(cv)} in a closure cell, unknown to the census')
+    ck.count('state_census_runtime_objects', n_obj)
+    ck.count('state_census_runtime_functions', n_fn)
+    ck.extra['state_census_runtime'] = {'objects': n_obj, 'functions': n_fn, 'classes': len(classes)}
+    ck.obligation('correspondence:state-census', not bad and n_fn >= 100,
+                  f'{n_obj} module-level / class-level objects and {n_fn} functions of the running module scanned; '
+                  + ('every mutable one is known to the census' if not bad else 'DISAGREE: ' + '; '.join(bad[:6])))
+    if bad:
+        ck.tie_broken.append('state census disagrees with the running module')
 
 
 def corr_inplace_census(ck: Ck) -> None:
@@ -1491,7 +2024,14 @@ def run(ck: Ck) -> None:
                'three outcomes (result / no-inverse / ZeroDivisionError) occur.  In-place forms: 7 in-place operators x 6 receiver '
                'classes x 9 operand classes (pairs the pure operator rejects are skipped and counted), 4 in-place rotation '
                'methods x rotation operand classes; conversions: ~45 entry points per random (vector, angle, rotation) triple; '
-               'float round trip: a third of the rotations with horizontal length in [0.0011, 0.1].')
+               'float round trip: a third of the rotations with horizontal length in [0.0011, 0.1].  Histories (round 5): sequences '
+               'of 2-9 public calls in one new instance of the module - text entry points (from_angstr, from_str, parse_vec_str, '
+               'rotate_by_str, Vec @ from_angstr / Angle.from_str, both classes each) with 1-2 unparsable and 0-1 parsable texts '
+               'reused with different fallbacks, numeric constructors (from_angle in three forms, from_pitch/yaw/roll, axis_angle, '
+               'from_basis, Matrix(), Matrix(m), Angle(), Vec(), to_matrix, to_angle), modifications of objects handed out earlier, '
+               'calls that raise; deterministic sweeps: every text x fallback twice over per text entry point, and per entry point '
+               'call / modify / call again / modify / call again / other arguments / call again; non-trivial = at least two calls; '
+               'distinct by the full list of steps.')
     ck.assumptions += [
         'Arithmetic in the theorems is over the real numbers; IEEE rounding is outside the model (property: "up to rounding"). '
         'The numeric oracle bounds the rounding error by 1e-9*max(1,|v|) on the sampled inputs only.',
@@ -1505,6 +2045,10 @@ def run(ck: Ck) -> None:
         'covered by the bit-exact correspondence of the whole method.',
     ]
     ck.assumptions += [
+        'Histories: "the same call alone in a new process" is the call in a NEW instance of srctools.math (the module body '
+        'executed again in an empty namespace): state kept outside math.py (another module, the interpreter) would be shared by both '
+        'sides; the state census reports every import from outside the standard library.',
+        'c04_history_independent: the census (read set, write set) is a footprint of the real calls - visible hypothesis.',
         'In-place protocol: a mutable receiver of an in-place operator must be the object returned (property: "in-place and frozen '
         'variants included"; a rebound name with a stale receiver breaks `for a in angles: a @= m`).',
         'c04_euler_roundtrip_binary64: the accuracy of atan2 / degrees / % 360 / radians / sin / cos in binary64 is one visible '
@@ -1512,6 +2056,10 @@ def run(ck: Ck) -> None:
     ]
     ck.trusted += ['translate/c04_inplace.py (in-place census: expansion of the exec() templates and path classification; its '
                    'per-class method sets are compared with vars() of the running classes on every run)']
+    ck.trusted += ['translate/c04_state.py (census of process state: which module-level / class-level objects are mutable, which '
+                   'function bodies read / update them, decorators, defaults, global declarations, reflective access, imports; '
+                   'compared with the objects, function attributes, defaults and closure cells of the running module on every '
+                   'run); that the census is a FOOTPRINT of the real calls is the visible hypothesis of c04_history_independent']
     ck.trusted += ['translate/c04_formulas.py symbolic executors (formulas: tied bit-for-bit to the implementation on every run; '
                    'dispatch: every table row compared with the implementation on every run)',
                    'Coq.Reals classical axioms (listed per theorem in axioms_per_theorem)',
@@ -1524,17 +2072,22 @@ def run(ck: Ck) -> None:
     ok_f = ck.translate('RotFormulas_gen', tr.translate_formulas)
     ok_d = ck.translate('RotDispatch_gen', tr.translate_dispatch)
     ok_i = ck.translate('RotInverse_gen', tri.translate_inverse)
-    ok_r = ok_f and ck.translate('RotReified_gen', tr.translate_reified)
+    # not gated on ok_f: when the formula model cannot express today's code, the reified pieces are still read (tolerant mode)
+    ok_r = ck.translate('RotReified_gen', tr.translate_reified)
     ok_rr = ok_f and ck.translate('RotRounded_gen', trr.translate_rounded)
     ok_ip = ck.translate('RotInplace_gen', trp.translate_inplace)
     ok_im = ok_f and ok_d and ck.translate('RotMethods_gen', trp.translate_methods)
     ok_cp = ck.translate('RotCopies_gen', trp.translate_copies)
+    ok_st = ck.translate('RotState_gen', trs.translate_state)
+    ok_pv = ck.translate('RotPivot_gen', tri.translate_pivot)
     A = tr.analyse() if (ok_f and ok_d) else None
     built = False
     # 1. models and generated objects (definitions only: these compile whatever the source computes)
     models = ck.build(['Rot/RotGJ.vo', 'Rot/RotGJTotal.vo', 'Rot/RotGJFloat.vo', 'Rot/RotDispatch.vo', 'Rot/RotReify.vo', 'Rot/RotRound.vo',
-                       'Rot/RotInplace.vo', 'Rot/RotMethods.vo', 'Rot/RotCopies.vo']
+                       'Rot/RotInplace.vo', 'Rot/RotMethods.vo', 'Rot/RotCopies.vo', 'Rot/RotState.vo']
                       + (['Gen/RotCopies_gen.vo'] if ok_cp else [])
+                      + (['Gen/RotState_gen.vo'] if ok_st else [])
+                      + (['Rot/RotPivot.vo', 'Gen/RotPivot_gen.vo'] if ok_pv else [])
                       + (['Gen/RotInplace_gen.vo'] if ok_ip else [])
                       + (['Gen/RotMethods_gen.vo'] if ok_im else [])
                       + (['Gen/RotFormulas_gen.vo', 'Gen/RotDispatch_gen.vo'] if A is not None else [])
@@ -1585,6 +2138,35 @@ def run(ck: Ck) -> None:
             'matrix_copies_are_new_objects_of_the_right_class': 'forallb crow_ok copy_table',
             'matrix_copies_ok': 'copies_ok copy_table',
         })
+    if ok_pv and models:
+        # the SHAPE of the pivot searches of inverse(), read by a tolerant reader (also when the program translator fails closed):
+        # an accepted shape selects a non-zero, largest entry whenever there is one (c04_pivot_search_finds_nonzero_pivot)
+        group(PIVOT_IMPORTS, {
+            'inverse_pivot_search_compares_with_gt': 'forallb pv_cmp_ok pivot_shapes_today',
+            'inverse_pivot_search_starts_from_zero_or_from_an_absolute_value': 'forallb pv_seed_ok pivot_shapes_today',
+            'inverse_pivot_search_missing_pivot_test_matches_its_start': 'forallb pv_miss_ok pivot_shapes_today',
+            'inverse_pivot_search_selects_a_nonzero_entry_when_there_is_one': 'pv_shapes_ok pivot_shapes_today',
+        })
+        ck.extra['pivot_shapes'] = tri.translate_pivot()[1]['pivot_shapes']
+    if ok_st and models:
+        # census of process state (round 5): nothing that outlives a call is updated by a function, no caching decorator, no
+        # mutable default, no global declaration, no reflective access, no foreign import -> every call of a history returns
+        # what it returns alone (state_ok_history_independent)
+        group(STATE_IMPORTS, {
+            'state_no_function_reads_a_long_lived_object_that_a_function_updates': 'reads_not_written state_census_today',
+            'state_no_long_lived_object_is_updated_by_a_function': 'no_long_lived_object_updated state_census_today',
+            'state_no_class_or_function_attribute_is_stored_by_a_function': 'no_class_attribute_stored state_census_today',
+            'state_no_caching_decorator': 'no_caching_decorator state_census_today',
+            'state_no_mutable_parameter_default': 'no_mutable_default state_census_today',
+            'state_no_global_declaration': 'no_global_declaration state_census_today',
+            'state_no_reflective_access_inside_functions': 'no_reflective_access state_census_today',
+            'state_no_import_from_outside_the_standard_library': 'no_foreign_import state_census_today',
+            'state_census_ok': 'state_ok state_census_today',
+        })
+        S = trs.analyse()
+        ck.extra['state_census'] = {k: S[k] for k in ('long_lived_module', 'long_lived_class', 'read_sites', 'writes', 'write_sites',
+                                                      'class_writes', 'decorators', 'defaults', 'globals', 'reflective', 'imports',
+                                                      'functions', 'template_functions', 'references')}
     if ok_im and models:
         # the in-place rotation METHODS, executed symbolically: the receiver ends up holding the pure operator form
         group(METHOD_IMPORTS, {
@@ -1661,7 +2243,7 @@ def run(ck: Ck) -> None:
         built = core and ck.build(['Props/C04.vo'])
         if built:
             theorems_with_axioms(ck)
-            if ok_i and ok_ip and ok_im:
+            if ok_i and ok_ip and ok_im and ok_st and ok_pv:
                 # today's generated table / program / census meet the hypotheses of c04_property (one Example, kernel-checked)
                 ck.build(['Props/C04Today.vo'])
     # 4. correspondences and 5. searches, each under `guarded` (exception / hang -> violation with the input in flight)
@@ -1674,6 +2256,8 @@ def run(ck: Ck) -> None:
         guarded(ck, found, 'correspondence-inverse', corr_inverse, ck)
     if ok_ip:
         guarded(ck, found, 'correspondence-inplace-census', corr_inplace_census, ck)
+    if ok_st:
+        guarded(ck, found, 'correspondence-state-census', corr_state_census, ck)
     if ok_rr:
         guarded(ck, found, 'correspondence-rounding', corr_rounding, ck)
         guarded(ck, found, 'correspondence-euler-float', corr_euler_float, ck, found)
@@ -1682,9 +2266,17 @@ def run(ck: Ck) -> None:
     guarded(ck, found, 'search-composed', search_composed, ck, found)
     guarded(ck, found, 'search-inplace', search_inplace, ck, found)
     guarded(ck, found, 'search-conversions', search_conversions, ck, found)
+    guarded(ck, found, 'search-histories', search_histories, ck, found)
+    hist_dep = history_dependent(found) if found else []
+    ck.extra['history_dependent_violations'] = hist_dep
     for key, (what, rp) in sorted(found.items()):
         ck.violation(key, what, rp)
     keys = set(found)
+    if hist_dep:
+        # a concrete input that fails after the oracle's earlier calls and passes alone: state that outlives a call is really used
+        ck.explain('instance:state_')
+        ck.explain('translate:RotState_gen')
+        ck.explain('correspondence:state-census')
     # A rejected dispatch row / failed proof is explained when the search exhibits the corresponding concrete failure.
     if any(k.startswith(('left-operand-mutated', 'right-operand-mutated', 'result-not-fresh', 'value-mismatch', 'unsupported',
                          'exception', 'result-kind', 'not-in-place')) for k in keys):
@@ -1704,6 +2296,16 @@ def run(ck: Ck) -> None:
         ck.explain('translate:RotInplace_gen')
     if any(k.startswith('inplace-method-') for k in keys):
         ck.explain('translate:RotMethods_gen')
+    if any(k.startswith('history:') for k in keys):
+        # a call that answers differently after a history: the state the census rejected (or could not read) is really used
+        ck.explain('instance:state_')
+        ck.explain('translate:RotState_gen')
+        ck.explain('correspondence:state-census')
+    if any(k.startswith(('conversion:to_matrix', 'history:to_matrix', 'history-result-changed:to_matrix')) for k in keys):
+        # Vec.localise goes through to_matrix(): a to_matrix the method executor cannot read AND a concrete wrong to_matrix result
+        for o in ck.obligations:
+            if not o['ok'] and o['name'] == 'translate:RotMethods_gen' and 'to_matrix' in o['detail']:
+                o['explained'] = True
     if any(k.startswith('conversion:') for k in keys):
         ck.explain('translate:RotCopies_gen')
         ck.explain('instance:matrix_copies_')
@@ -1712,6 +2314,7 @@ def run(ck: Ck) -> None:
         ck.explain('correspondence:inverse')
         # the translator could not read inverse() (fail closed) AND the search exhibits a concrete wrong inverse
         ck.explain('translate:RotInverse_gen')
+        ck.explain('translate:RotPivot_gen')
     # a changed _vec_rot / _mat_mul tree changes its error bound too: explained by the concrete wrong value
     for fn, pref in (('_vec_rot', 'instance:vec_rot_rounding'), ('_mat_mul', 'instance:mat_mul_rounding'),
                      ('from_angle', 'instance:from_angle_')):
@@ -1723,7 +2326,8 @@ def run(ck: Ck) -> None:
         ck.explain('translate:Rot')
     # Props/C04Today.v is the conjunction of five instance obligations: it fails with them and is explained with them
     if any(o['name'] in ('instance:dispatch_table_ok', 'instance:inverse_prog_ok', 'instance:inverse_total_on_rotations',
-                         'instance:inplace_census_ok', 'instance:inplace_methods_ok') and not o['ok'] and o.get('explained') for o in ck.obligations):
+                         'instance:inplace_census_ok', 'instance:inplace_methods_ok', 'instance:state_census_ok',
+                         'instance:inverse_pivot_search_selects_a_nonzero_entry_when_there_is_one') and not o['ok'] and o.get('explained') for o in ck.obligations):
         ck.explain('build:Props/C04Today.vo')
     explain_build(ck, keys)
 
@@ -1855,6 +2459,22 @@ def _replay(data: dict) -> int:
         print('conversions of', r['vals'])
         print('problems  :', probs or 'none')
         return 1 if probs else 0
+    if r.get('kind') == 'history':
+        steps = r['steps']
+        res = run_history(steps)
+        for i, (st, out) in enumerate(zip(steps, res)):
+            if st[0] in ('call', 'call!'):
+                alone = call_alone(st)
+                print(f'  step {i}: {st[1]}{tuple(st[2])!r} -> {hshow(out)}' + ('' if out == alone else f'   BUT alone in a new process: {hshow(alone)}'))
+            else:
+                print(f'  step {i}: the caller modifies the object returned by step {st[1]}')
+        changed: list = []
+        run_history(steps, changed)
+        for c in changed:
+            print(f'  the object returned by step {c[0]} was {hshow(c[2])} and became {hshow(c[3])} when step {c[1]} ran')
+        pr = history_problem(steps)
+        print('problem   :', pr[2] if pr else 'none')
+        return 1 if pr else 0
     if r.get('kind') == 'stage':
         print('no single input was in flight; re-run the check to reproduce:', r)
         return 1
